@@ -749,6 +749,61 @@ def run(res: Results, idx: Index, tier: str) -> None:
     if not getattr(res, "_nested_xref", False):
         rule_i(res, idx, tier)
     rule_j(res, idx, m)
+    rule_k(res, idx, m)
+
+
+# ---------------------------------------------------------------------------------------------- R-C02k
+# Point-wise ONNX operators (output element i depends on input element(s) i only, up to numpy broadcasting): the
+# reference the optimizer's "commutes with Transpose / Reshape" tables are checked against.  From the operator spec.
+POINTWISE_OPS = {
+    "Abs", "Acos", "Acosh", "Asin", "Asinh", "Atan", "Atanh", "Ceil", "Cos", "Cosh", "Erf", "Exp", "Floor", "IsInf", "IsNaN", "Log", "Neg", "Not", "Reciprocal",
+    "Round", "Sign", "Sin", "Sinh", "Sqrt", "Tan", "Tanh", "Relu", "Sigmoid", "Elu", "Celu", "Gelu", "Selu", "Swish", "Mish", "Softplus", "Softsign", "LeakyRelu",
+    "HardSigmoid", "HardSwish", "ThresholdedRelu", "Identity", "Cast", "CastLike", "Clip", "Dropout", "BitwiseNot",
+    "Add", "Sub", "Mul", "Div", "Pow", "Mod", "Max", "Min", "Mean", "Sum", "And", "Or", "Xor", "Equal", "Less", "LessOrEqual", "Greater", "GreaterOrEqual",
+    "Where", "BitShift", "BitwiseAnd", "BitwiseOr", "BitwiseXor", "PRelu",
+}
+LAYOUT_ATTRS = {"axis", "axes", "perm", "keepdims", "blocksize", "kernel_shape", "pads", "strides", "dilations", "transA", "transB", "direction", "k", "batch_dims"}
+
+
+def rule_k(res: Results, idx: Index, m: Module) -> None:
+    """The operator tables that make a node transparent for Transpose / Reshape folding (`_is_elementwise_node`,
+    `_is_first_input_passthrough`) may only contain point-wise operators.  An operator with an axis / axes / perm
+    attribute in its ONNX schema (Softmax, LogSoftmax, ReduceX, Concat …) acts along a fixed axis and does not commute
+    with a permutation: definite violation.  Operators that are neither in the point-wise reference nor carry such
+    an attribute are UNRESOLVED."""
+    from .c08 import _op_sets
+    res.rule("R-C02k", "operator tables of the transpose / reshape folds contain point-wise operators only", floor=20)
+    hist = get_history()
+    sets = _op_sets(m)
+    used = {}
+    for fn in ("_is_elementwise_node", "_is_first_input_passthrough"):
+        f = idx.find_func(OPT, fn)
+        if f is None:
+            raise AnalysisError(f"{fn} not found (acceptance predicate of the transpose / reshape folds)")
+        for x in ast.walk(f.node):
+            if isinstance(x, ast.Name) and x.id in sets:
+                used.setdefault(x.id, set()).add(fn)
+    if not used:
+        raise AnalysisError("the fold acceptance predicates reference no operator table")
+    for sname in sorted(used):
+        for op in sorted(sets[sname]):
+            key = f"{OPT}::{sname}::{op}"
+            site = f"{OPT}:1"
+            attrs = set()
+            vers = hist.hist.get(op, {})
+            base = max([v for v in vers if v <= 21], default=None)
+            for ver, sch in vers.items():
+                if ver == base or ver > 21:  # the schema versions a target opset in 21..newest can select
+                    attrs |= set(sch.attributes)
+            lay = sorted(attrs & LAYOUT_ATTRS)
+            if op in POINTWISE_OPS and not lay:
+                res.ok("R-C02k", site, key, "point-wise operator", sname)
+            elif lay:
+                res.violation("R-C02k", site, key, f"`{op}` is listed in {sname} (nodes the {'/'.join(sorted(used[sname]))} folds move Transposes / Reshapes across) but its ONNX schema has the layout attribute(s) {lay}: it acts along a fixed axis and does not commute with a permutation of the axes", sname)
+            elif op in POINTWISE_OPS:
+                res.ok("R-C02k", site, key, "point-wise operator", sname)
+            else:
+                res.unresolved("R-C02k", site, key, f"`{op}` is not in the checker's point-wise reference and has no axis-like attribute", sname)
 
 
 # ---------------------------------------------------------------------------------------------- R-C02j
